@@ -17,6 +17,7 @@ fn run_geo(c: &MultiCase) -> CaseResult {
     let mut v = Verdict::default();
     let (mut overflow, mut fits_again, mut wraps, mut wide_wraps) = (false, false, false, false);
     let mut was_over = false;
+    let mut max_rows_seen = it.rows;
     for (i, op) in c.ops.iter().enumerate() {
         clock::advance(Duration::from_millis(c.step_ms.max(2) as u64));
         let out = catch(|| it.step(op)).map_err(|p| Fail::new("panic", format!("op #{i} {op:?} panicked: {p} ({}x{} terminal, ops {:?})", it.rows, it.cols, &c.ops[..=i])))??;
@@ -30,11 +31,14 @@ fn run_geo(c: &MultiCase) -> CaseResult {
         it.check_frames(&out, &ctx).map_err(|f| Fail::new(if it.stale_reap_seen { "geometry_stale_reap" } else { "geometry" }, f.msg))?;
         // the live frame never needs more than rows-1 upward moves; rows of retained (finished, dropped)
         // bars may have scrolled away and are only erased as far as they can be reached
+        max_rows_seen = max_rows_seen.max(it.rows);
+        v.label_if(out.note == "resize", "terminal_height_changed");
         let max_up = it.vt.lock().max_up;
         let retained: usize = it.model.blocks.iter().map(|b| height_of(&b.lines, it.cols)).sum();
         // (bottom alignment: after the region was emptied the cursor is parked on the row below it, one more row up)
         let below = usize::from(it.model.bottom_ever);
-        ensure!(max_up <= it.rows.saturating_sub(1) + retained + below, "cursor_up_too_far", "{ctx}: move_cursor_up({max_up}) on a terminal with {} rows ({retained} retained rows)", it.rows);
+        // (after the terminal was made smaller, the taller region painted before still has to be erased once)
+        ensure!(max_up <= max_rows_seen.saturating_sub(1) + retained + below, "cursor_up_too_far", "{ctx}: move_cursor_up({max_up}) on a terminal with {} rows ({retained} retained rows)", it.rows);
         if !out.frames.is_empty() {
             let full = it.model.frame();
             let h = height_of(&full, it.cols);
@@ -55,6 +59,7 @@ fn run_geo(c: &MultiCase) -> CaseResult {
     v.label_if(overflow, "frame_taller_than_terminal");
     v.label_if(fits_again, "fits_again_after_overflow");
     v.label_if(it.rows == 1 || it.cols == 1, "one_row_or_one_column");
+    v.label_if(it.cols > 256, "terminal_wider_than_256_columns");
     v.label_if(!it.model.log.is_empty(), "log_lines");
     Ok(v)
 }
@@ -90,8 +95,9 @@ fn run_bottom(c: &MultiCase) -> CaseResult {
 
 fn geo_strategy(tier: Tier) -> BoxedStrategy<MultiCase> {
     let n = tier.pick(30, 50);
-    let (max_rows, max_cols) = tier.pick((12u8, 40u8), (40, 200));
-    (prop_oneof![1 => 1u8..3, 4 => 3u8..=max_rows], prop_oneof![1 => 1u8..4, 4 => 4u8..=max_cols])
+    let (max_rows, max_cols) = tier.pick((12u8, 40u16), (40, 200));
+    // (one terminal in twenty is wider than 256 columns)
+    (prop_oneof![1 => 1u8..3, 4 => 3u8..=max_rows], prop_oneof![4 => 1u16..4, 15 => 4u16..=max_cols, 1 => 257u16..400])
         .prop_flat_map(move |(rows, cols)| {
             let c = cols as usize;
             let s = || any::<u16>();
@@ -117,6 +123,7 @@ fn geo_strategy(tier: Tier) -> BoxedStrategy<MultiCase> {
                 3 => s().prop_map(MOp::Drop),
                 3 => log.prop_map(MOp::MpPrintln),
                 1 => Just(MOp::MpClear),
+                1 => (1u8..=max_rows).prop_map(MOp::Resize),
             ];
             (Just(rows), Just(cols), proptest::collection::vec(op, 0..n))
         })
@@ -159,7 +166,7 @@ fn bottom_strategy(tier: Tier) -> BoxedStrategy<MultiCase> {
                 }
                 all.push(op);
             }
-            MultiCase { rows: 16, cols, hz: None, step_ms: 2, ops: all, final_drops: vec![] }
+            MultiCase { rows: 16, cols: cols as u16, hz: None, step_ms: 2, ops: all, final_drops: vec![] }
         })
         .boxed()
 }
@@ -178,10 +185,10 @@ pub fn property() -> Property {
             name: "overflow",
             rule: "MultiProgress on terminals from 1x1 to 12x40 (thorough 40x200) with up to 8 single-line bars whose width sits at k*W-2..k*W+2 (1-4 rows each), ops add/remove/tick/inc/set_message/finish/finish_and_clear/drop/println/clear so that the frame crosses the terminal height in both directions; at every flush the screen must equal log ++ retained blocks ++ the longest fitting prefix of the bar lines, and move_cursor_up never exceeds rows-1; non-trivial = a line wraps and the frame exceeded the height at least once",
             strategy: geo_strategy,
-            cases: |t| t.pick(4_000, 800_000),
+            cases: |t| t.pick(16_000, 800_000),
             run: run_geo,
             signature: crate::props::c02::signature,
-            essential: &["line_wraps", "frame_taller_than_terminal", "fits_again_after_overflow", "one_row_or_one_column", "log_lines", "double_width_line_wraps_with_fewer_chars_than_columns"],
+            essential: &["line_wraps", "frame_taller_than_terminal", "fits_again_after_overflow", "one_row_or_one_column", "log_lines", "double_width_line_wraps_with_fewer_chars_than_columns", "terminal_height_changed", "terminal_wider_than_256_columns"],
             workers: w,
             decode: Some(|u| decode_multi(u, 2)),
         }),
@@ -189,7 +196,7 @@ pub fn property() -> Property {
             name: "bottom_wrap",
             rule: "bottom-aligned MultiProgress on a 16-row x 4..40-column terminal, at most four single-line bars whose messages wrap over 1-3 rows; ops add/remove/tick/inc/set_message/finish/finish_and_clear (no text, clear, suspend or drop, so the strict bottom-alignment oracle applies): at every flush the screen is the blank shift rows followed by the drawn members, rows counted as wrapped; non-trivial = a line wraps",
             strategy: bottom_strategy,
-            cases: |t| t.pick(1_000, 200_000),
+            cases: |t| t.pick(4_000, 200_000),
             run: run_bottom,
             signature: crate::props::c02::signature,
             essential: &["line_wraps", "region_shrinks_under_bottom_alignment"],
